@@ -37,10 +37,16 @@ def main(argv):
             verbose = True; i += 1
         else:
             ids.append(argv[i]); i += 1
-    root = os.path.join(VERIF, "seeded", "neutral")
     if seeds:
         return seeded(ids, verbose)
-    ids = ids or sorted(x for x in os.listdir(root) if os.path.exists(os.path.join(root, x, "patch.diff")))
+    # every round of behaviour-preserving refactorings: seeded/neutral, seeded/neutral2, ...  (ids are "<round>/<Cnn>")
+    sroot = os.path.join(VERIF, "seeded")
+    every = sorted("%s/%s" % (r, x) for r in sorted(os.listdir(sroot)) if r.startswith("neutral")
+                   for x in os.listdir(os.path.join(sroot, r)) if os.path.exists(os.path.join(sroot, r, x, "patch.diff")))
+    if ids:
+        every = [e for e in every if e in ids or e.split("/")[1] in ids or e.split("/")[0] in ids]
+    ids = every
+    root = sroot
     dirs = {}
     try:
         for nid in ids:
